@@ -246,6 +246,10 @@ func BuildModularGenome(t *Tape) *genetics.Genome {
 		if len(hid) > 0 && t.Chance("modHiddenInput", 1, 3) {
 			cn.AddIncoming(hid[t.Draw("modHidden", len(hid))], 1.0)
 		}
+		// a module may list one node on both sides (its output fed back as one of its inputs)
+		if t.Chance("modFeedback", 1, 4) {
+			cn.AddIncoming(io[len(io)-1], 1.0)
+		}
 		cn.AddOutgoing(io[len(io)-1], 1.0)
 		mg := genetics.NewMIMOGene(cn, innov, t.Float("modMut"), !t.Chance("modDisabled", 1, 5))
 		innov++
